@@ -8,7 +8,6 @@ mod c37;
 mod c38;
 mod clock;
 mod par;
-mod scratch;
 
 fn main() {
     let args = Args::parse();
@@ -27,7 +26,6 @@ fn main() {
         "C36" => c36::run(Report::new(&args, "model_checking")),
         "C37" => c37::run(Report::new(&args, "model_checking")),
         "C38" => c38::run(Report::new(&args, "model_checking")),
-        "X00" => scratch::run(Report::new(&args, "model_checking")),
         other => {
             eprintln!("vh-enc: unknown property {other}");
             2
